@@ -331,6 +331,9 @@ func (p *Prog) VerifyFunction(fn *ssa.Function, fc *FuncContract, split *int, wa
 		}
 		if fc != nil && !fc.TrustedPost {
 			for i, en := range fc.Ensures {
+				if hasTag(en.Tags, "trusted") {
+					continue // assumed at call sites, recorded as an assumption there
+				}
 				if !check(en, i, pbind, fn.Signature, fc.Spec, "") {
 					return e
 				}
